@@ -75,6 +75,16 @@ def c05_grid(ctx, case):
         a = est.build(row, x, p, NFFT=nfft, scale_by_freq=off)
         b = est.build(row, x, p, NFFT=nfft * c, scale_by_freq=off)
     pa = np.real(est.psd_of(a))
+    if (len(x) + nfft) % 3 == 1:
+        # one case in three: the finer grid is obtained from a second object that first estimated on the coarse grid and was
+        # then given the new NFFT (and, every other time, its own layout again) -- the estimate of a re-used object on the
+        # grid it now has is the estimate of that grid
+        b = est.build(row, x, p, NFFT=nfft, scale_by_freq=off)
+        _ = b.psd
+        b.NFFT = nfft * c
+        if (len(x) + c) % 2 == 0:
+            b.sides = b.sides
+        ctx.cls("finer grid on a re-used object")
     pb = np.real(est.psd_of(b))
     ctx.cls(row, "real" if real else "complex", "odd" if nfft % 2 else "even", "c=%d" % c,
             "NFFT<N" if nfft < len(x) else "NFFT>=N")
